@@ -69,10 +69,16 @@ type Case struct {
 	V1      string   `json:"v1,omitempty"`      // string: the same strings as a version-1 block (hex)
 	CMode   int      `json:"cmode,omitempty"`   // file: chunk-meta-compress-mode the file was written under
 	CMS     *CMSJ    `json:"cms,omitempty"`     // col: the chunk meta as marshalled under chunk-meta-compress-mode = self
+	FileHex string   `json:"file,omitempty"`    // file / compact: the whole data file (small files)
+	Blocks  [][2]string `json:"blocks,omitempty"` // ... its compressed chunk-meta blocks and what the third-party decoder gives for them
+	CP      *CPJ     `json:"cp,omitempty"`      // compact: how the rows were spread over the source files
+	MG      *MGJ     `json:"mg,omitempty"`      // merge: two statistics blocks and what the real merge returned
 	MF      *MFJ     `json:"mf,omitempty"`      // mfile: expected chunk ranges, real trailer range and meta-index entries
 	PA      *PAJ     `json:"pa,omitempty"`      // preagg: statistics value and, per mode, the real bytes and what the reader returned
 	seed    uint64
 }
+
+func math64(f float64) uint64 { return math.Float64bits(f) }
 
 func u64le(vs []uint64) []byte {
 	b := make([]byte, 8*len(vs))
@@ -998,6 +1004,10 @@ func runCase(c *Case) {
 		runPreAgg(c)
 	case "mfile":
 		runMFile(c)
+	case "compact":
+		runCompact(c)
+	case "merge":
+		runMerge(c)
 	}
 	gen.Emit(c)
 }
@@ -1007,14 +1017,19 @@ func main() {
 		printConsts()
 		return
 	}
-	if len(os.Args) > 2 && (os.Args[1] == "preagg" || os.Args[1] == "mfile") { // one kind only (volume runs)
+	if len(os.Args) > 2 && (os.Args[1] == "preagg" || os.Args[1] == "mfile" || os.Args[1] == "compact" || os.Args[1] == "merge") { // one kind only (volume runs)
 		n, _ := strconv.Atoi(os.Args[2])
 		r := gen.FromEnv(7)
 		for i := 0; i < n; i++ {
 			c := Case{}
-			if os.Args[1] == "preagg" {
+			switch os.Args[1] {
+			case "preagg":
 				genPreAgg(r, &c)
-			} else {
+			case "compact":
+				genCompact(r, &c)
+			case "merge":
+				genMerge(r, &c)
+			default:
 				genMFile(r, &c)
 			}
 			runCase(&c)
@@ -1051,7 +1066,7 @@ func main() {
 					os.Exit(3)
 				}
 				c := Case{K: in.K, Vals: in.Vals, Strs: in.Strs, Algo: in.Algo, Typ: in.Typ, Payload: in.Payload, Lim: in.Lim, Cols: in.Cols, Series: in.Series,
-					Seed: in.Seed, seed: in.Seed, Shape: "corpus", Src: filepath.Base(f), CMode: in.CMode, PA: in.PA, MF: in.MF}
+					Seed: in.Seed, seed: in.Seed, Shape: "corpus", Src: filepath.Base(f), CMode: in.CMode, PA: in.PA, MF: in.MF, CP: in.CP, MG: in.MG}
 				if len(in.Rep) == 2 {
 					c.Vals = make([]uint64, in.Rep[1])
 					for i := range c.Vals {
@@ -1104,6 +1119,17 @@ func main() {
 	for i := 0; i < n/3; i++ {
 		c := Case{}
 		genPreAgg(r, &c)
+		runCase(&c)
+	}
+	// 5. compaction of level-0 files into one (streaming: stored statistics merged) and statistics merges
+	for i := 0; i < n/50; i++ {
+		c := Case{}
+		genCompact(r, &c)
+		runCase(&c)
+	}
+	for i := 0; i < n/10; i++ {
+		c := Case{}
+		genMerge(r, &c)
 		runCase(&c)
 	}
 	// 4. multi-series files: trailer / meta-index ranges and row lookups through the reopened file
